@@ -238,7 +238,7 @@ def _short(v):
     return s if len(s) < 300 else s[:300] + '...'
 
 
-def checks():
+def _checks():
     return [
         HypCheck(
             'writer-files', lambda: gen.programs(), run_program,
@@ -274,3 +274,13 @@ def checks():
                  'same section ids and contents, and a second pass changes '
                  'nothing; non-trivial = model accepts and >= 2 freedoms'),
     ]
+
+
+def checks():
+    out = _checks()
+
+    for c in out:
+        if c.name in ['after-other-parses']:
+            c.isolated = True
+
+    return out
